@@ -383,6 +383,12 @@ def _judge(name, family, fam, models, data, opts, per_slice):
             # (condition >= 1e11; sklearn's Cholesky check only just accepts it), the whitened residuals and with them the
             # likelihood carry a relative error of condition * eps - "up to rounding" decides nothing from here on
             return judged, 'numerically-singular-full-covariance'
+        if np.any(np.asarray(fam.weight(m)) == 0):
+            # from strictly positive start values an exact EM iterate has strictly positive mixture weights; an exact 0.0 is
+            # a posterior that underflowed (per-observation priors of weight_constant_axis=-3 keep it for ever, and once
+            # the other classes move away the observation is left with prior [0, 0] and likelihood -inf).  Underflow is
+            # not rounding: the judged prefix ends here, like at a clipped posterior
+            return judged, 'mixture-weight-underflow'
         L = np.asarray(_likelihood(fam, m, data, opts, per_slice))
         if not np.all(np.isfinite(L)):
             return Fail(f'likelihood-not-finite:{family}', f'{name}: log-likelihood after iteration {i} is {L}')
